@@ -175,16 +175,18 @@ func c15Ops() []c15Op {
 	// handed out (for a field it lacks, and for one it has)
 	ops = append(ops, c15Op{"foldStats", func(e *c15Env) error {
 		for _, f := range []string{"no-such-field", "a"} {
-			acc, err := e.segs[0].CollectionStats(f)
-			if err != nil {
-				return err
-			}
-			for _, sg := range e.segs[1:] {
-				cs, err := sg.CollectionStats("a")
+			for ai := range e.segs { // each segment's answer serves as the accumulator in turn
+				acc, err := e.segs[ai].CollectionStats(f)
 				if err != nil {
 					return err
 				}
-				acc.Merge(cs)
+				for _, sg := range e.segs {
+					cs, err := sg.CollectionStats("a")
+					if err != nil {
+						return err
+					}
+					acc.Merge(cs)
+				}
 			}
 		}
 		return nil
